@@ -1,5 +1,6 @@
 import RtcModel.C07Rtp
 import RtcModel.C07Ice
+import RtcModel.C07Dtls
 import RtcModel.Drv.Util
 /-! Driver for C07: one decoder model per stream; output `ok <digest>` / `err <error>` / `panic`. -/
 namespace RtcModel.Drv.C07
@@ -18,7 +19,25 @@ def runS (f : Array UInt8 → Cur α) (bs : List UInt8) : Res α := f bs.toArray
 
 def hexA (a : Array UInt8) : String := hex a.toList
 
-def handle (stream : String) (args : List String) : String :=
+def natsList (ps : List (List Nat)) : String := s!"{ps.length};" ++ ";".intercalate (ps.map nats)
+
+/-- streams whose single argument is the input byte string and whose result is a digest -/
+def bufStream (stream : String) : Option (List UInt8 → String) :=
+  match stream with
+  | "dtlsrec" => some fun bs => showRes (runB Dtls.recordDecode bs) nats
+  | "dtlshs" => some fun bs => showRes (runB Dtls.handshakeDecode bs) nats
+  | "dtlsrecwalk" => some fun bs => showRes (runB Dtls.recordWalk bs) natsList
+  | "dtlshswalk" => some fun bs => showRes (runB Dtls.handshakeWalk bs) natsList
+  | "chello" => some fun bs => showRes (runB Dtls.clientHelloDecode bs) nats
+  | "shello" => some fun bs => showRes (runB Dtls.serverHelloDecode bs) nats
+  | "hvr" => some fun bs => showRes (runB Dtls.helloVerifyDecode bs) nats
+  | "ske" => some fun bs => showRes (runB Dtls.serverKeyExchangeDecode bs) nats
+  | "cert" => some fun bs => showRes (runB Dtls.certificateDecode bs) nats
+  | "cke" => some fun bs => showRes (runB Dtls.clientKeyExchangeDecode bs) nats
+  | "finished" => some fun bs => showRes (runB Dtls.finishedDecode bs) nats
+  | _ => none
+
+def handleSpecial (stream : String) (args : List String) : String :=
   match stream, args with
   | "rtp", [hx] =>
     match unhex hx with
@@ -75,5 +94,13 @@ def handle (stream : String) (args : List String) : String :=
     | some bs => showRes (runS Ice.unwrapRtx bs) (fun r => match r with | none => "none" | some (o, l) => s!"{o} {l}")
     | none => "bad-hex"
   | _, _ => "bad-stream"
+
+def handle (stream : String) (args : List String) : String :=
+  match bufStream stream, args with
+  | some f, [hx] =>
+    match unhex hx with
+    | some bs => f bs
+    | none => "bad-hex"
+  | _, _ => handleSpecial stream args
 
 end RtcModel.Drv.C07
